@@ -125,7 +125,7 @@ FUNCS = [
          params=[('target', 'obj:net'), ('exclude', 'obj:net')], ret='lists3', fuel='(width exclude_ver + 1)'),
     dict(name='cidr_exclude', tie='NV.Tie.cidr_exclude_eq', prop='C09', file='ip/__init__.py', cls=None, func='cidr_exclude', kind=None,
          params=[('target', 'obj:net'), ('exclude', 'obj:net')], ret='list3'),
-    dict(name='iprange_to_cidrs', tie='NV.Tie.iprange_to_cidrs_eq', prop='C05', file='ip/__init__.py', cls=None, func='iprange_to_cidrs', kind=None,
+    dict(name='iprange_to_cidrs', tie='NV.Tie.iprange_to_cidrs_ok', prop='C05', file='ip/__init__.py', cls=None, func='iprange_to_cidrs', kind=None,
          params=[('start', 'obj:net'), ('end', 'obj:net')], ret='list3'),
     # `x in y`: one translation per operand class (isinstance tests are decided by the declared class)
     dict(name='IPNetwork_contains_addr', tie='NV.Tie.net_contains_addr', prop='C04', file='ip/__init__.py', cls='IPNetwork', func='__contains__', kind='net', params=[('other', 'obj:addr')], ret='bool'),
